@@ -96,6 +96,13 @@ def TEMPLATES():
         ('base.tr2delta', 'T', [A, L, L, L], lambda a: b.tr2delta(T3(a))),
         ('base.tr2delta', 'T0,T1', [A, L, L, L, A], lambda a: b.tr2delta(T3(a), T3([a[4], a[3], a[1], a[2]]))),
         ('base.delta2tr', 'd', [G] * 6, lambda a: b.delta2tr(list(a))),
+        # a GENERAL rotation (two axes), whose matrix is not symmetric about the diagonal in any simple way: vex / vexa / tr2delta
+        # of it average the two off-diagonal elements
+        ('base.tr2delta', 'general T', [A, A, L, L, L], lambda a: b.tr2delta(b.trotx(a[0]) @ b.troty(a[1], t=[a[2], a[3], a[4]]))),
+        ('base.tr2delta', 'general T0,T1', [A, A, L, A], lambda a: b.tr2delta(b.trotz(a[0], t=[a[2], 0, 1]), b.trotx(a[1]) @ b.troty(a[3], t=[1, a[2], 2]))),
+        ('base.vex', 'general matrix', [A, A], lambda a: b.vex(R3(a))),
+        ('base.vexa', 'general matrix', [A, A, L], lambda a: b.vexa(b.trotx(a[0]) @ b.troty(a[1], t=[a[2], 1, 2]))),
+        ('SE3.delta', 'general', [A, A, L], lambda a: sm.SE3(b.trotx(a[0]) @ b.troty(a[1], t=[a[2], 1, 2]), check=False).delta(sm.SE3(b.trotz(a[1]), check=False))),
         ('base.det', 'R', [A, A], lambda a: b.det(R3(a))),
         # classes
         ('SE3.Rx', 'theta', [A], lambda a: sm.SE3.Rx(a[0])), ('SE3.Ry', 'theta', [A], lambda a: sm.SE3.Ry(a[0])),
